@@ -15,6 +15,12 @@ func init() {
 	register("C09", checkC09)
 	replayers["gocc-complete"] = replayGoccComplete
 	replayers["gocc-terminates"] = replayGoccTerminates
+	replayers["gocc-outdir"] = func(c *Ctx, r *Replay) (bool, string) {
+		// the output-directory configurations are a fixed small family: re-run the C09 family and
+		// report whether the named case still fails
+		name, _ := r.Data["case"].(string)
+		return c.outdirCase(name)
+	}
 }
 
 var allFlagNames = []string{"a", "zip", "no_lexer", "debug_lexer", "debug_parser", "v"}
@@ -118,6 +124,45 @@ func checkC09(c *Ctx) {
 	c.buildAll(m, toBuild)
 	if len(cases) > 0 {
 		c.Sample(map[string]any{"flags": flagArgs(cases[len(cases)/2].Flags), "features": cases[len(cases)/2].Feature, "model_status": cases[len(cases)/2].Row.Status, "model_written": cases[len(cases)/2].Row.Written})
+	}
+
+	// ---- 1b. where the output goes: -o with several path components, and -p with the current
+	// directory as output directory; the import paths inside the generated packages must resolve
+	{
+		text := c09Grammar(true, true, "none")
+		mo := c.NewModule("c09o")
+		type oc struct {
+			name string
+			cwd  string
+			args []string
+			pkgs string
+		}
+		mustWrite(filepath.Join(mo.Dir, "deep", "er", "est", "g.bnf"), []byte(text))
+		mustWrite(filepath.Join(mo.Dir, "here", "g.bnf"), []byte(text))
+		mustWrite(filepath.Join(mo.Dir, "g.bnf"), []byte(text))
+		ocs := []oc{
+			{"-o a/b/c (three components)", mo.Dir, []string{"-o", "a/b/c", "g.bnf"}, "./a/b/c/..."},
+			{"-o deep/er/est with the grammar inside", mo.Dir, []string{"-a", "-zip", "-o", "deep/er/est", "deep/er/est/g.bnf"}, "./deep/er/est/..."},
+			{"no -o, run inside a sub-directory (default package from go.mod)", filepath.Join(mo.Dir, "here"), []string{"g.bnf"}, "./here/..."},
+			{"-p with the current directory as output directory", filepath.Join(mo.Dir, "here"), []string{"-p", "scratch/here", "-v", "g.bnf"}, "./here/..."},
+			{"absolute -o below the working directory", mo.Dir, []string{"-o", filepath.Join(mo.Dir, "abs", "out"), "g.bnf"}, "./abs/out/..."},
+		}
+		for _, o := range ocs {
+			c.Add("evaluations", 1)
+			r := runCmd(cmdOpts{Dir: o.cwd, Timeout: 60 * time.Second, Env: goEnv()}, c.Gocc, o.args...)
+			bad := ""
+			if r.TimedOut || r.Code != 0 {
+				bad = fmt.Sprintf("gocc %v (in %s) exits %d: %s", o.args, o.cwd, r.Code, strings.TrimSpace(tail(r.Out, 2)))
+			} else if out, ok := mo.BuildPkgs(o.pkgs); !ok {
+				bad = fmt.Sprintf("gocc %v exits 0 but the output does not build (import paths): %s", o.args, tail(out, 4))
+			} else if w := writtenPackages(filepath.Join(mo.Dir, strings.TrimSuffix(strings.TrimPrefix(o.pkgs, "./"), "/..."))); len(w) != 5 {
+				bad = fmt.Sprintf("gocc %v exits 0 but wrote only %v", o.args, w)
+			}
+			if bad != "" && c.firstFor("outdir"+o.name) {
+				c.Violation(Replay{Kind: "gocc-outdir", What: o.name + ": " + bad, Data: map[string]any{"case": o.name}})
+			}
+		}
+		c.Set("output_directory_configurations", len(ocs))
 	}
 
 	// ---- 2. hostile spellings
@@ -348,7 +393,10 @@ func (c *Ctx) terminationSweep(rng *rand.Rand) {
 			}
 			continue
 		}
-		if runs[i].Code == 0 {
+		// compile-check only files without Go fragments of the user (file header, action
+		// expressions): a mutation inside such a fragment makes invalid Go, which is the user's
+		// business, not gocc's
+		if runs[i].Code == 0 && !strings.Contains(t, "<<") {
 			fl := []string{}
 			if i%2 == 0 {
 				fl = append(fl, "a")
@@ -433,3 +481,37 @@ func replayGoccTerminates(c *Ctx, r *Replay) (bool, string) {
 }
 
 var _ = os.Stat
+
+// outdirCase re-runs one output-directory configuration (by name) of C09.
+func (c *Ctx) outdirCase(name string) (bool, string) {
+	text := c09Grammar(true, true, "none")
+	mo := c.NewModule("c09or")
+	mustWrite(filepath.Join(mo.Dir, "deep", "er", "est", "g.bnf"), []byte(text))
+	mustWrite(filepath.Join(mo.Dir, "here", "g.bnf"), []byte(text))
+	mustWrite(filepath.Join(mo.Dir, "g.bnf"), []byte(text))
+	type oc struct {
+		name, cwd string
+		args      []string
+		pkgs      string
+	}
+	for _, o := range []oc{
+		{"-o a/b/c (three components)", mo.Dir, []string{"-o", "a/b/c", "g.bnf"}, "./a/b/c/..."},
+		{"-o deep/er/est with the grammar inside", mo.Dir, []string{"-a", "-zip", "-o", "deep/er/est", "deep/er/est/g.bnf"}, "./deep/er/est/..."},
+		{"no -o, run inside a sub-directory (default package from go.mod)", filepath.Join(mo.Dir, "here"), []string{"g.bnf"}, "./here/..."},
+		{"-p with the current directory as output directory", filepath.Join(mo.Dir, "here"), []string{"-p", "scratch/here", "-v", "g.bnf"}, "./here/..."},
+		{"absolute -o below the working directory", mo.Dir, []string{"-o", filepath.Join(mo.Dir, "abs", "out"), "g.bnf"}, "./abs/out/..."},
+	} {
+		if o.name != name {
+			continue
+		}
+		r := runCmd(cmdOpts{Dir: o.cwd, Timeout: 60 * time.Second, Env: goEnv()}, c.Gocc, o.args...)
+		if r.TimedOut || r.Code != 0 {
+			return true, fmt.Sprintf("gocc %v exits %d", o.args, r.Code)
+		}
+		if out, ok := mo.BuildPkgs(o.pkgs); !ok {
+			return true, "output does not build: " + tail(out, 3)
+		}
+		return false, "status zero and the output builds"
+	}
+	return false, "unknown configuration"
+}
